@@ -193,7 +193,15 @@ class _Sim:
         elif k == "cdecl":
             c = rng.randrange(nc)
             kind = rng.choice(CLASS_OPS + ["ClassImplements", "Implementer"])
-            self.class_op(kind, c, self.ilist(prefer=self.implied(c)))
+            l = self.ilist(prefer=self.implied(c))
+            subs = [x for d in self.asked[c] for x in range(len(self.ifaces)) if x != d and d in self.up[x]]
+            if subs and rng.random() < 0.45:
+                # both halves of classImplements' before/after split are non-empty
+                kind = rng.choice(["ClassImplements", "Implementer"])
+                l = [rng.choice(subs), rng.randrange(len(self.ifaces))] + l[:1]
+                rng.shuffle(l)
+                self.tags.add("before-after-split")
+            self.class_op(kind, c, l)
         elif k == "cobj":
             c = rng.randrange(nc)
             self.obj_op(rng.choice(OBJ_OPS), ("c", c), self.ilist())
